@@ -53,9 +53,7 @@ type GateCtx struct {
 }
 
 func (c GateCtx) Done() <-chan struct{} {
-	if c.W.Gate != nil {
-		c.W.Gate(GatePoint{Kind: GateCtxDone, Goid: Goid()})
-	}
+	c.W.gate(GatePoint{Kind: GateCtxDone, Goid: Goid()})
 	return c.Context.Done()
 }
 
